@@ -1,7 +1,7 @@
 import TxV.Drv.Common
 import TxV.Spec.AddrSpec
 /-
-Driver for C20.   reset | line <name> <addr|error> <tok>…  | advance <dt> | find <n|a> <key>
+Driver for C20.   reset | line|raw <name> <addr|error> <tok>…  | advance <dt> | find <n|a> <key>
 tok = f<time> | fnever | fbad | e<time> | enever | ebad | o      (time: integer seconds)
 Each op answers  `<model outs> # <spec outs>`; find answers `<model> # <spec>`.
 -/
@@ -37,14 +37,6 @@ def showFind (r : Option (Nat × Nat)) : String :=
 def step (st : St2) (line : String) : St2 × String :=
   match words line with
   | ["reset"] => ({}, "ok")
-  | "line" :: n :: ip :: toks =>
-    match n.toNat?, (if ip = "error" then some Ip.error else ip.toNat?.map Ip.addr), toks.mapM decTok with
-    | some name, some i, some ts =>
-      let l : Line := { name := name, ip := i, rest := ts }
-      let (m, o1) := AddrMap.step st.m (.line l)
-      let (s, o2) := AddrSpec.step st.s (.line l)
-      ({ m := m, s := s }, showOuts o1 ++ " # " ++ showOuts o2)
-    | _, _, _ => (st, "bad-op")
   | ["advance", d] =>
     match d.toNat? with
     | some dt =>
@@ -58,6 +50,16 @@ def step (st : St2) (line : String) : St2 × String :=
       let key := if k = "n" then Key.name x else Key.addr x
       (st, showFind (AddrMap.find st.m key) ++ " # " ++ showFind (AddrSpec.find st.s key))
     | none => (st, "bad-op")
+  | kind :: n :: ip :: toks =>
+    if kind ≠ "line" ∧ kind ≠ "raw" then (st, "bad-op") else
+    match n.toNat?, (if ip = "error" then some Ip.error else ip.toNat?.map Ip.addr), toks.mapM decTok with
+    | some name, some i, some ts =>
+      let l : Line := { name := name, ip := i, rest := ts }
+      let inp : In := if kind = "raw" then .raw l else .line l
+      let (m, o1) := AddrMap.step st.m inp
+      let (s, o2) := AddrSpec.step st.s inp
+      ({ m := m, s := s }, showOuts o1 ++ " # " ++ showOuts o2)
+    | _, _, _ => (st, "bad-op")
   | _ => (st, "bad-op")
 
 end TxV.Drv.C20
